@@ -61,10 +61,16 @@ func (w *World) Stat(k string) { w.mu.Lock(); w.Stats[k]++; w.mu.Unlock() }
 
 func (w *World) tr(f string, a ...interface{}) {
 	w.Trace = append(w.Trace, fmt.Sprintf("%d ", w.step)+fmt.Sprintf(f, a...))
+	if yieldDebug != nil {
+		yieldDebug("T " + fmt.Sprintf(f, a...))
+	}
 }
 
 func (w *World) ob(f string, a ...interface{}) {
 	w.obs = append(w.obs, fmt.Sprintf(f, a...))
+	if yieldDebug != nil {
+		yieldDebug("O " + fmt.Sprintf(f, a...))
+	}
 }
 
 func (w *World) Digest() string {
